@@ -338,9 +338,50 @@ def check_seeded_inprocess(ctx):
                           signature=dict(kind='not-reproducible', what='jackknife'))
 
 
+@guarded
+def check_sampled_copies(ctx):
+    """clone / pickle round trip of an instance that works on a seeded *sample* of the point pairs: the copy holds the
+    same sample - identical results right away, and after the same re-binning on both"""
+    rng = ctx.rng
+    coords = gen_coords(rng, int(rng.integers(24, 40)), dim=2, kind='uniform')
+    values = gen_values(rng, coords, 'field')
+    seed = int(rng.choice([0, 1, int(rng.integers(2, 10 ** 6))]))
+    case = dict(coords=coords.tolist(), values=values.tolist(), sampled_copy=True, seed=seed)
+    try:
+        with quiet():
+            V = Variogram(coords.copy(), values.copy(), samples=float(rng.choice([0.5, 0.7])), binning_random_state=seed,
+                          n_lags=6)
+            if rng.random() < 0.5:
+                np.asarray(V.experimental)          # computed before the copy, or still lazy
+    except (ValueError, RuntimeError) as e:
+        ctx.reject('sampled:' + type(e).__name__)
+        return
+    for name, mk in (('clone', lambda: V.clone()), ('pickle', lambda: pickle.loads(pickle.dumps(V)))):
+        ctx.case(signature=('sampled-' + name, seed), stream='determinism', sample=dict(op='sampled ' + name, seed=seed))
+        ctx.count('op:sampled-' + name)
+        with quiet():
+            C = mk()
+            first = (np.asarray(V.distance, float).tolist(), np.asarray(C.distance, float).tolist())
+            a0, b0 = obs(V), obs(C)
+            V.n_lags = 4
+            C.n_lags = 4
+            a1, b1 = obs(V), obs(C)
+            V.n_lags = 6
+        if first[0] != first[1]:
+            ctx.violation('copy-differs', '%s of a variogram on sampled pairs (seed %r): the copy works on other pair distances '
+                          '(%d vs %d stored)' % (name, seed, len(first[0]), len(first[1])), case,
+                          signature=dict(kind='copy-differs', how=name, sampled=True))
+        elif not same(a0, b0) or not same(a1, b1):
+            ctx.violation('copy-differs', '%s of a variogram on sampled pairs (seed %r): results differ%s' % (
+                name, seed, '' if not same(a0, b0) else ' after n_lags = 4 on both'), case,
+                signature=dict(kind='copy-differs', how=name, sampled=True))
+
+
 def run(ctx):
     for k in range(ctx.n(30, 500)):
         check_case(ctx, gen(ctx))
+    for k in range(ctx.n(3, 20)):
+        check_sampled_copies(ctx)
     for k in range(ctx.n(2, 10)):
         check_seeded_inprocess(ctx)
     for k in range(ctx.n(1, 4)):
@@ -349,6 +390,8 @@ def run(ctx):
 
 
 def replay(ctx, body):
+    if body['case'].get('sampled_copy'):
+        raise SystemExit('sampled-copy replays are re-run through the seeded run')
     c = body['case']
     if c.get('seeded'):
         check_seeded(ctx)
